@@ -208,9 +208,17 @@ def _check_history(case, sampler, ref, params, bad):
         bad('sampler-stack-raises', 'sampler-level arrays raised %r' % (e,), None)
 
 
-def gen_cases(seed, n, **kw):
+def gen_cases(seed, n, td_every=5, **kw):
+    """Random configurations; every `td_every`-th one is a nested transdimensional sampler."""
     rng = random.Random(seed)
-    return [plumbing.gen_case(rng, 's%d' % i, **kw) for i in range(n)]
+    out = []
+    for i in range(n):
+        if td_every and i % td_every == td_every - 1:
+            out.append(plumbing.gen_td_case(rng, 's%d' % i, kinds=kw.get('kinds', ('mh', 'pt')),
+                                            allow_saveload=kw.get('allow_saveload', True)))
+        else:
+            out.append(plumbing.gen_case(rng, 's%d' % i, **kw))
+    return out
 
 
 # --------------------------------------------------------------------------
@@ -344,6 +352,8 @@ def call_count_findings(case, max_findings=3):
     one call per chain and level at the proposed point; nothing else calls the model; the values
     recorded for an accepted point come from that call (stateful blob = call index)."""
     out = []
+    if isinstance(case, plumbing.TDCase):
+        return _td_call_counts(case)
     params = [p[0] for p in case.params]
     model = plumbing.make_model(case)
     model.blobs = True
@@ -869,3 +879,38 @@ def resume_findings(case, n, cuts=None, double=False, max_findings=3):
             bad('final-state-differs:' + fams, 'resumed at iteration %d: same iterations but a different final state' % k,
                 {'cut': k})
     return out, ncuts
+
+
+def _td_call_counts(case):
+    """C18 on nested transdimensional samplers: plain counting (the harness model is pure)."""
+    out = []
+    model = plumbing.make_model(case)
+    nlev = len(case.betas) if case.kind == 'pt' else 1
+    per_iter = case.nchains * nlev
+    sampler = plumbing.build_sampler(case, case.seed, model)
+    n0 = model.calls
+    sampler.start_position = plumbing.start_positions(case)
+    if model.calls - n0 != per_iter:
+        out.append(('start-calls', 'setting the start positions made %d model calls, expected %d' % (model.calls - n0, per_iter),
+                    {'case': case.describe()}))
+    for op in case.ops:
+        n0 = model.calls
+        if op[0] == 'run':
+            sampler.run(op[1])
+            if model.calls - n0 != op[1] * per_iter:
+                out.append(('run-calls', 'run(%d) made %d model calls, expected %d' % (op[1], model.calls - n0, op[1] * per_iter),
+                            {'case': case.describe()}))
+                break
+        elif op[0] == 'clear':
+            sampler.clear()
+        elif op[0] == 'saveload':
+            try:
+                st = pickle.loads(pickle.dumps(sampler.state))
+            except ValueError:
+                continue
+            new = plumbing.build_sampler(case, case.seed + 7919, model)
+            new.set_state(st)
+            sampler = new
+        if op[0] != 'run' and model.calls != n0:
+            out.append(('call-outside-step:' + op[0], 'operation %s evaluated the model' % op[0], {'case': case.describe()}))
+    return out
